@@ -2,7 +2,7 @@
 REG = dict(
     engine='E1-enum',
     technique='bounded-exhaustive enumeration of calls (every built-in/prelude function, method, operator and syntax form x argument vectors over a value pool), executed on the real interpreter',
-    text="Every public prelude/built-in function and method (table parsed from the repository's own .gdn files at run time, so new functions are picked up) is called with every argument vector over a 20-value pool (full product for <=2 positions, deviation-bounded beyond), plus arity n-1/n+1; every binary operator and +=/-= over pool x pool; 66 syntax forms x pool. Outcome must be a value or a Garden error: a Rust panic, abort, signal or non-termination is a violation. Exhaustive within the pool and deviation bound.",
+    text="Every public prelude/built-in function and method (table parsed from the repository's own .gdn files at run time, so new functions are picked up) is called with every argument vector over a 20-value pool (full product for <=2 positions, deviation-bounded beyond), plus arity n-1/n+1; every binary operator and +=/-= over pool x pool; 74 syntax forms x pool. Outcome must be a value or a Garden error: a Rust panic, abort, signal or non-termination is a violation. Exhaustive within the pool and deviation bound.",
     note='One call per program with a fresh Env, tick limit 200k; effectful built-ins run sandboxed and (in a scratch directory) unsandboxed; `read_line` only through the real CLI with stdin at EOF. Values outside the pool and call sequences are not covered.',
     design_ref='DESIGN.md §6 C02',
 )
@@ -92,6 +92,15 @@ def run(ctx):
              "typed = {v}", "println = {v}", "Red = {v}", "Cust = {v}", "Foo = {v}", "nosuch = {v}", "nosuch += {v}", "typed += {v}", "println -= {v}",
              "fun g(p) {{ p = {v} p }}\ng(1)", "fun g(p: Int) {{ p += {v} p }}\ng(1)", "let c = fun() {{ typed = {v} }}\nc()", "for i in [1] {{ i = {v} }}",
              "match Some(1) {{ Some(m) => {{ m = {v} }} None => {{}} }}", "let (a, b) = (1, 2)\na = {v}\nb += {v}", "let _ = {v}", "let x = {v}\nlet x = x\nx",
+             # definitions replaced while values of the old definition are still alive
+             "enum E9 {{ A9, B9(Int), C9 }}\nlet w = (C9, B9(1), {v})\nenum E9 {{ A9 }}\nprintln(string_repr(w))\ndbg(w)",
+             "enum E8 {{ A8, B8(Int) }}\nlet w = B8({v})\nenum E8 {{ B8, A8 }}\nprintln(string_repr(w))\nmatch w {{ A8 => 1 B8 => 2 }}",
+             "struct S9 {{ a: Int, b: Int }}\nlet w = S9{{ a: 1, b: 2 }}\nstruct S9 {{ a: Int }}\nprintln(string_repr(w))\nw.b\nlet u = {v}",
+             "struct S8 {{ a: Int }}\nlet w = S8{{ a: 1 }}\nenum S8 {{ K8 }}\nprintln(string_repr(w))\nw.a\nlet u = {v}",
+             "fun g9(a) {{ a }}\nlet h = g9\nfun g9(a, b) {{ b }}\nh({v})\ng9({v})",
+             "fun g8(a: Int): Int {{ a }}\nlet h = g8\nfun g8(a: String): String {{ a }}\nh({v})",
+             "method m9(this: Int) {{ 1 }}\nmethod m9(this: Int, extra) {{ extra }}\n1.m9()\n1.m9({v})",
+             "test t9 {{ assert({v}) }}\ntest t9 {{ assert(True) }}",
              "import \"__fs.gdn\" as zfs\nzfs = {v}", "import \"__fs.gdn\" as zfs\nzfs::nosuch({v})", "{v}::x", "typed::x({v})"]
     for form in forms:
         for v in pool:
@@ -148,7 +157,7 @@ def run(ctx):
         raise Machinery("vacuous: no program succeeded or none raised")
     return ("every public prelude/built-in function and method (parsed from the repository's own .gdn files) called with every argument vector over a 20-value pool "
             "(full product for <=2 positions, else all vectors deviating from a well-typed default in <=bound positions), arity n-1 and n+1; every binary operator and "
-            "+=/-= over pool x pool; 66 syntax forms x pool. One call per program, fresh Env, tick limit 200k, sandbox on (effectful ones also off, in a scratch dir). "
+            "+=/-= over pool x pool; 74 syntax forms x pool. One call per program, fresh Env, tick limit 200k, sandbox on (effectful ones also off, in a scratch dir). "
             "Oracle: outcome is a value or an EvalError; a Rust panic, abort, signal or >20 s is a violation.")
 
 
